@@ -681,7 +681,9 @@ class BaseTaskPool:
         )
         if not return_exceptions:
             for result in meta_results:
-                if isinstance(result, Exception):
+                if isinstance(result, BaseException) and not isinstance(
+                    result, CancelledError
+                ):
                     raise result
         self._meta_tasks_cancelled.clear()
         finished = {**self._tasks_ended, **self._tasks_cancelled}
